@@ -202,6 +202,31 @@ def produceItems (sch : Schema) (inFields : List FieldS) (script : List Resp) :
           let (gs, st2, e) := produceItems sch inFields script st1 (pos + 1) items
           (rows :: gs, st2, e)
 
+/-- the mapper alone over the items (no schema, no rows): one transaction per processed item -/
+def mapItems (inFields : List FieldS) (script : List Resp) :
+    MState → Nat → List Row → List (List (String × Dict)) × MState × Option Err
+  | st, _, [] => ([], st, none)
+  | st, pos, item :: items =>
+    match script[pos % script.length]? with
+    | none => ([], st, some .unmodelled)
+    | some r =>
+      if r.results.isNone then ([], st, some .keyError) else
+      match mapResponse st (keysOf inFields item) r with
+      | .error e => ([], st, some e)
+      | .ok (st1, tx) =>
+        let (txs, st2, e) := mapItems inFields script st1 (pos + 1) items
+        (tx :: txs, st2, e)
+
+/-- the `i-id` of an input row as the mapper reads it (0 if its cell is not an integer: then mapping fails) -/
+def itemId (inFields : List FieldS) (item : Row) : Int :=
+  (decInt (iidCellOf (keysOf inFields item))).getD 0
+
+/-- the `parse-id` cell of the parse entry a transaction starts with -/
+def parsePidCell (tx : List (String × Dict)) : Option Nat :=
+  match tx with
+  | (n, p) :: _ => if n == "parse" then dget p "parse-id" else none
+  | [] => none
+
 /-- indices of the relations that processing invalidates (`affected_tables ∩ schema`) -/
 def affectedIdx (sch : Schema) : List Nat :=
   (sch.zipIdx.filter (fun p => c10AffectedTables.contains p.1.name)).map (·.2)
